@@ -283,26 +283,6 @@ Fixpoint m_create (fo : fops) (n : node) (segs : list seg) (v : node) : rc * nod
     end
   end.
 
-Fixpoint is_prefix (a b : list seg) : bool :=
-  match a, b with
-  | [], _ => true
-  | x :: a', y :: b' => bytes_eqb x y && is_prefix a' b'
-  | _, _ => false
-  end.
-
-(* set the data part of the node addressed by segs *)
-Fixpoint m_set_data (n : node) (segs : list seg) (d : node) : option node :=
-  match segs with
-  | [] => Some (copy_data n d)
-  | s :: r => match child_pos n s with
-              | None => None
-              | Some i => match nth_error (n_ch n) i with
-                          | None => None
-                          | Some c => match m_set_data c r d with None => None | Some c' => Some (set_child n i c') end
-                          end
-              end
-  end.
-
 Record pop := { p_op : opk; p_path : list seg; p_from : option (list seg); p_val : option node }.
 
 Definition is_root (p : list seg) : bool := match p with [] => true | [[]] => true | _ => false end.
@@ -313,22 +293,73 @@ Definition put_or_create (fo : fops) (k : opk) (t : node) (path : list seg) (v :
   | None => if op_eqb k OAddCreate then m_create fo t path v else (RcTargetInvalid, t)
   end.
 
-(* does the last segment of `path` address an existing child of its (existing) parent?  Used by swap only. *)
-Definition swap_target (t : node) (path : list seg) : option (option node) :=   (* None: no parent; Some None: no child *)
-  match m_find t (removelast path) with
-  | None => None
-  | Some p =>
-    match n_ty p with
-    | TArr => let s := last path [] in
-              if is_dash s then Some None
-              else let idx := sw 32 (atoi s) in
-                   if (0 <=? idx) && (idx <? Z.of_nat (length (n_ch p))) then Some (nth_error (n_ch p) (Z.to_nat idx)) else Some None
-    | TObj => match child_pos p (last path []) with
-              | Some i => Some (nth_error (n_ch p) i)
-              | None => Some None
+(* Node identity for `swap`: the C code holds node POINTERS (value = the `from` node, child = the `path` node, parent);
+   a pointer is the position of the node: the child indices on the way from the root. *)
+Fixpoint m_locate (n : node) (segs : list seg) : option (list nat) :=
+  match segs with
+  | [] => Some []
+  | s :: r => match child_pos n s with
+              | None => None
+              | Some i => match nth_error (n_ch n) i with
+                          | None => None
+                          | Some c => match m_locate c r with Some l => Some (i :: l) | None => None end
+                          end
               end
-    | _ => Some None
+  end.
+Fixpoint pos_prefix (a b : list nat) : bool :=
+  match a, b with
+  | [], _ => true
+  | x :: a', y :: b' => Nat.eqb x y && pos_prefix a' b'
+  | _, _ => false
+  end.
+Definition pos_eqb (a b : list nat) : bool := pos_prefix a b && pos_prefix b a.
+(* _jbl_copy_node_data(node at pos, d) *)
+Fixpoint set_data_at (n : node) (pos : list nat) (d : node) : option node :=
+  match pos with
+  | [] => Some (copy_data n d)
+  | i :: r => match nth_error (n_ch n) i with
+              | None => None
+              | Some c => match set_data_at c r d with None => None | Some c' => Some (set_child n i c') end
+              end
+  end.
+(* _jbn_remove_item(parent of the node at pos, node at pos) *)
+Fixpoint detach_at (n : node) (pos : list nat) : option node :=
+  match pos with
+  | [] => None
+  | i :: r =>
+    match nth_error (n_ch n) i with
+    | None => None
+    | Some c =>
+      match r with
+      | [] => Some (remove_item n i)
+      | _ => match detach_at c r with None => None | Some c' => Some (set_child n i c') end
+      end
     end
+  end.
+
+(* swap only: the parent of `path` (its position) and, when the last segment addresses an existing child of it, that child
+   with its index.  Arrays: the C code walks `idx` steps from the first item (position, not cached klidx); "-" never
+   addresses an existing item here.  None = no parent. *)
+Definition swap_target (t : node) (path : list seg) : option (list nat * option (nat * node)) :=
+  match m_locate t (removelast path), m_find t (removelast path) with
+  | Some pp, Some p =>
+    let s := last path [] in
+    match n_ty p with
+    | TArr => if is_dash s then Some (pp, None)
+              else let idx := sw 32 (atoi s) in
+                   if (0 <=? idx) && (idx <? Z.of_nat (length (n_ch p))) then
+                     match nth_error (n_ch p) (Z.to_nat idx) with
+                     | Some c => Some (pp, Some (Z.to_nat idx, c))
+                     | None => Some (pp, None)
+                     end
+                   else Some (pp, None)
+    | TObj => match child_pos p s with
+              | Some i => match nth_error (n_ch p) i with Some c => Some (pp, Some (i, c)) | None => Some (pp, None) end
+              | None => Some (pp, None)
+              end
+    | _ => Some (pp, None)
+    end
+  | _, _ => None
   end.
 
 (* _jbl_target_apply_patch *)
@@ -373,28 +404,39 @@ Definition apply_op (fo : fops) (t : node) (o : pop) : rc * node :=
         match p_from o with
         | None => (RcNotFound, t1)
         | Some f =>
-          match m_find t1 f with
-          | None => (RcNotFound, t1)
-          | Some v =>
+          match m_find t1 f, m_locate t1 f with
+          | Some v, Some pf =>
             match swap_target t1 path with
             | None => (RcTargetInvalid, t1)
-            | Some (Some c) =>
-              (* both exist: the data parts are exchanged through ntmp; cyclic when one contains the other *)
-              if is_prefix f path && is_prefix path f then (RcOk, t1)
-              else if is_prefix f path || is_prefix path f then (RcUnmodelled, t1)
-              else match m_set_data t1 f c with
+            | Some (pp, Some (i, c)) =>
+              (* both exist: ntmp <- value; value <- child; child <- ntmp (data parts: child list, type, scalar) *)
+              let pc := pp ++ [i] in
+              if pos_eqb pf pc then (RcOk, t1)                  (* value == child *)
+              else if pos_prefix pf pc then
+                (* `from` contains `path`: from takes the data of its descendant; the descendant gets from's old child list
+                   (of which it is a member itself) and is not reachable from the root any more *)
+                match set_data_at t1 pf c with Some t2 => (RcOk, t2) | None => (RcUnmodelled, t1) end
+              else if pos_prefix pc pf then
+                (* `path` contains `from`: the same with the roles exchanged *)
+                match set_data_at t1 pc v with Some t2 => (RcOk, t2) | None => (RcUnmodelled, t1) end
+              else match set_data_at t1 pf c with
                    | None => (RcUnmodelled, t1)
-                   | Some t2 => match m_set_data t2 path v with None => (RcUnmodelled, t1) | Some t3 => (RcOk, t3) end
+                   | Some t2 => match set_data_at t2 pc v with None => (RcUnmodelled, t1) | Some t3 => (RcOk, t3) end
                    end
-            | Some None =>
-              (* no such child: the C code keeps the `parent` pointer, detaches `from` and links it below parent.
-                 Here: link first (at the end of parent, which moves nothing), then detach `from`. *)
-              if is_prefix f path then (RcUnmodelled, t1)
-              else match put_or_create fo k t1 path v with
-                   | (RcOk, t2) => match m_detach t2 f with None => (RcUnmodelled, t1) | Some (t3, _) => (RcOk, t3) end
-                   | r => r
-                   end
+            | Some (pp, None) =>
+              (* no such child: the C code keeps the `parent` pointer, detaches `from` and links it below parent (at the end).
+                 Here: link first (at the end of parent: no position changes), then unlink the node at from's position.
+                 When parent lies inside `from` (or is `from`) the detached subtree is linked below itself: it is gone. *)
+              match put_or_create fo k t1 path v with
+              | (RcOk, t2) =>
+                match detach_at (if pos_prefix pf pp then t1 else t2) pf with
+                | Some t3 => (RcOk, t3)
+                | None => (RcUnmodelled, t1)
+                end
+              | r => r
+              end
             end
+          | _, _ => (RcNotFound, t1)
           end
         end
       else
@@ -405,7 +447,7 @@ Definition apply_op (fo : fops) (t : node) (o : pop) : rc * node :=
     end.
 
 (* _jbl_ptr_pool: "" -> no segments; must start with '/'; a trailing '/' (len > 1) is rejected; ~0 ~1 unescaped.
-   "~" followed by anything else leaves an unwritten byte in the C buffer: not modelled (None). *)
+   "~" followed by anything else is JBL_ERROR_JSON_POINTER (4d9b497; ptr_segs = None). *)
 Fixpoint ptr_segs (s : list Z) (cur : list Z) : option (list seg) :=     (* cur reversed *)
   match s with
   | [] => Some [rev cur]
@@ -421,7 +463,7 @@ Definition ptr_parse (s : list Z) : ptr_res :=
   | [] => PtrOk []
   | 47 :: r =>
     if (1 <? Z.of_nat (length s)) && (match rev s with 47 :: _ => true | _ => false end) then PtrErr
-    else match ptr_segs r [] with Some l => PtrOk l | None => PtrUnmodelled end
+    else match ptr_segs r [] with Some l => PtrOk l | None => PtrErr end
   | _ => PtrErr
   end.
 
